@@ -990,6 +990,40 @@ def m4_restricted_domain(ctx, env, n_cases):
                       lambda: {**wit(), "err": err, "ratio": ratio})
 
 
+# ======================================================================================= M4e user-limited step
+def m4_max_step(ctx, env, n_cases):
+    """A smooth feature of the vector field far narrower than the step the error controller would choose (a Gaussian bump of width
+    sigma in a time-dependent forcing next to a slow oscillator): no embedded error estimate can see what no stage samples, so the
+    user bounds the step (max_step = sigma/2).  With that legitimate setting the requested tolerance must be met at every output
+    time; a driver that lets the step grow past max_step after an accepted step jumps over the bump."""
+    from hiten.algorithms.integrators.rk import AdaptiveRK
+    rng = ctx.rng
+    dim = 26
+    for it in range(n_cases):
+        if not ctx.mine(it):
+            continue
+        sigma = 10.0 ** float(rng.uniform(-2.7, -2.0))
+        T = float(rng.uniform(4.0, 8.0))
+        tc = float(rng.uniform(0.25, 0.85)) * T
+        A = float(rng.uniform(0.5, 2.0)) / (sigma * np.sqrt(2 * np.pi))          # bump integral of order 1
+        x, v = rng.normal(size=2)
+        tol = 10.0 ** float(rng.uniform(-10, -7))
+        tg = np.linspace(0.0, T, int(rng.choice([2, 9])))
+        y0 = ef.bump_state(A, tc, sigma, x, v, dim)
+        ref_ = ef.bump_exact(A, tc, sigma, x, v, tg)
+        for order in (5, 8):
+            ctx.case(f"M4e:adaptive{order}:max_step", [it, ctx.seed, order, tg.size, tol], nontrivial=True)
+            sol = AdaptiveRK(order=order, rtol=tol, atol=tol, max_step=sigma / 2).integrate(env.system(dim), y0.copy(), tg.copy())
+            st = np.asarray(sol.states)[:, :3]
+            err = float(np.abs(st - ref_).max())
+            # quadrature error of ~T/(sigma/2) steps accumulates at most linearly: K tol (1 + number of steps / 100) is generous
+            bound = K_ADAPTIVE * tol * (1.0 + np.abs(ref_).max()) * (1.0 + T / sigma / 100.0)
+            ctx.stat(f"M4e err/bound [adaptive{order}]", err / bound)
+            ctx.check(err <= bound, "M4e:error <= K*tol with a user-limited step (max_step) on a field with a narrow feature",
+                      lambda: {"order": order, "rtol=atol": tol, "sigma": sigma, "t_bump": tc, "T": T, "max_step": sigma / 2, "n_times": tg.size,
+                               "err": err, "bound": bound, "u_end_lib": st[-1, 0], "u_end_exact": ref_[-1, 0]})
+
+
 # ======================================================================================= M4b time-unit invariance
 def classify_timescale(order, c, ratio_scaled, ratio_base, rk45_scaled, rk45_base):
     """The DOP853 drivers multiply an error estimate that already carries one factor h by |h| once more, so a step is
@@ -1179,6 +1213,7 @@ def run(ctx):
             ctx.pick([1e-7, 1e-10], [1e-6, 1e-8, 1e-10, 1e-12]))
     guarded(ctx, "M4c", m4_mixed_tolerances, ctx, env, ctx.pick(8, 40 * ctx.nshards))
     guarded(ctx, "M4d", m4_restricted_domain, ctx, env, ctx.pick(8, 40 * ctx.nshards))
+    guarded(ctx, "M4e", m4_max_step, ctx, env, ctx.pick(6, 30 * ctx.nshards))
     guarded(ctx, "M5", m5_cr3bp, ctx, ctx.pick(4, 8 * ctx.nshards))
     ctx.note("kernel_calls", dict(env.calls))
 
@@ -1197,6 +1232,7 @@ def run(ctx):
     ctx.require("M4:first sample equals y0 bit for bit", 300)
     ctx.require("M4b:error <= K*tol*kappa for the same problem in every time unit", 40)
     ctx.require("M4d:states returned for a field with a restricted domain are finite (non-finite trial stages are rejected, not accepted)", 8 if one else 2)
+    ctx.require("M4e:error <= K*tol with a user-limited step (max_step) on a field with a narrow feature", 8 if one else 2)
     ctx.require("M4d:trial step of the standard initial-step heuristic leaves the domain (model)", 4 if one else 1)
     ctx.require("M5:System.propagate(method='fixed', order=p) converges with median rate >= p - 0.5", 2)
     ctx.require("M5:System.propagate(method='adaptive') error <= K*tol*kappa", 6)
